@@ -884,17 +884,102 @@ Proof.
   destruct (keqb x k) eqn:Ek; [|apply H]. apply keqb_eq in Ek. subst x. rewrite E1. reflexivity.
 Qed.
 
-(* harper-wasm: Linter::new starts from new_curated_empty_config (= clear curated), every
-   set_lint_config_from_json / set_lint_config_from_object MERGES the parsed object into the stored
-   configuration, and lint overlays the curated defaults.  So over a whole history of settings objects
-   us = [u1; ..; un] the switch k is: the last explicit true/false any ui gave it, else the curated
-   value.  (A later null does not undo an earlier explicit choice.) *)
-Lemma wasm_history (cur : config) (us : list config) (k : key) : wf cur -> Forall wf us ->
-  get k (fill_with_curated cur (merge_seq (clear cur) us))
-  = match last_explicit k us with Some v => Some (Some v) | None => get k cur end.
+(* harper-wasm (since b67a243): Linter::new starts from new_curated_empty_config (= clear curated); every
+   set_lint_config_from_json / set_lint_config_from_object CLEARS the stored configuration (keys stay, values
+   become null) and then merges the parsed object into it; lint overlays the curated defaults.  So after a
+   whole history of settings objects us ++ [u] the overlaid configuration is that of the LAST object alone:
+   fill_with_curated cur u — an explicit choice of u, else the curated value.  Nothing of the earlier objects
+   survives except their keys (as null entries in the stored configuration). *)
+Definition wasm_seq (base : config) (us : list config) : config :=
+  fold_left (fun s u => fst (wasm_set_config s u)) us base.
+
+Lemma wf_wasm_set (s u : config) : wf s -> wf (fst (wasm_set_config s u)).
+Proof. intros Hs. unfold wasm_set_config, merge_from. cbn [fst]. now apply wf_merge_into, wf_clear. Qed.
+
+Lemma get_wasm_set (s u : config) k : wf u ->
+  get k (fst (wasm_set_config s u))
+  = match get k u with
+    | Some (Some v) => Some (Some v)
+    | _ => match get k s with Some _ => Some None | None => None end
+    end.
 Proof.
-  intros Hc HF.
-  rewrite get_fill; [|apply wf_merge_seq, wf_clear, Hc].
-  rewrite (get_merge_seq _ _ _ HF). destruct (last_explicit k us) as [v|]; [reflexivity|].
-  rewrite get_clear. destruct (get k cur); reflexivity.
+  intros Hu. unfold wasm_set_config, merge_from. cbn [fst].
+  rewrite (get_merge_into _ _ _ Hu), get_clear. reflexivity.
+Qed.
+
+Lemma wasm_set_source (s u : config) : snd (wasm_set_config s u) = clear u.
+Proof. reflexivity. Qed.
+
+Lemma wf_wasm_seq base us : wf base -> wf (wasm_seq base us).
+Proof.
+  unfold wasm_seq. revert base. induction us as [|u t IH]; intros base Hw; cbn [fold_left]; [exact Hw|].
+  apply IH. now apply wf_wasm_set.
+Qed.
+
+Lemma wasm_seq_snoc base us u : wasm_seq base (us ++ [u]) = fst (wasm_set_config (wasm_seq base us) u).
+Proof. unfold wasm_seq. rewrite fold_left_app. reflexivity. Qed.
+
+(* the overlay after one set_lint_config depends on the new object alone, whatever was stored *)
+Lemma fill_wasm_set (cur s u : config) : wf cur -> wf s -> wf u ->
+  fill_with_curated cur (fst (wasm_set_config s u)) = fill_with_curated cur u.
+Proof.
+  intros Hc Hs Hu. apply wf_ext; [now apply wf_fill|now apply wf_fill|].
+  intros k. rewrite (get_fill _ _ _ (wf_wasm_set _ u Hs)), (get_fill _ _ _ Hu), (get_wasm_set _ _ _ Hu).
+  destruct (get k u) as [[v|]|]; [reflexivity| |]; destruct (get k s); reflexivity.
+Qed.
+
+Lemma wasm_history (cur : config) (us : list config) (u : config) : wf cur -> wf u ->
+  fill_with_curated cur (wasm_seq (clear cur) (us ++ [u])) = fill_with_curated cur u.
+Proof.
+  intros Hc Hu. rewrite wasm_seq_snoc. apply fill_wasm_set; [exact Hc| |exact Hu].
+  apply wf_wasm_seq, wf_clear, Hc.
+Qed.
+
+Lemma wasm_history_get (cur : config) (us : list config) (u : config) (k : key) : wf cur -> wf u ->
+  get k (fill_with_curated cur (wasm_seq (clear cur) (us ++ [u])))
+  = match get k u with Some (Some v) => Some (Some v) | _ => get k cur end.
+Proof. intros Hc Hu. rewrite (wasm_history _ _ _ Hc Hu). now apply get_fill. Qed.
+
+(* a Linter that was never configured lints under the curated configuration itself *)
+Lemma wasm_fresh (cur : config) : wf cur -> fill_with_curated cur (wasm_seq (clear cur) []) = cur.
+Proof.
+  intros Hc. cbn [wasm_seq fold_left]. apply wf_ext; [now apply wf_fill|exact Hc|].
+  intros k. rewrite (get_fill _ _ _ (wf_clear _ Hc)), get_clear. destruct (get k cur) as [[v|]|]; reflexivity.
+Qed.
+
+(* set(get()) is the identity on the stored configuration *)
+Lemma wasm_set_get_id (s : config) : wf s -> fst (wasm_set_config s s) = s.
+Proof.
+  intros Hs. apply wf_ext; [now apply wf_wasm_set|exact Hs|].
+  intros k. rewrite (get_wasm_set _ _ _ Hs). destruct (get k s) as [[v|]|]; reflexivity.
+Qed.
+
+(* the stored configuration never loses a key: getLintConfig keeps listing every rule *)
+Lemma wasm_set_keeps_keys (s u : config) k : wf u ->
+  contains_key k s = true -> contains_key k (fst (wasm_set_config s u)) = true.
+Proof.
+  intros Hu. unfold contains_key. rewrite (get_wasm_set _ _ _ Hu).
+  destruct (get k s); [|discriminate]. destruct (get k u) as [[v|]|]; reflexivity.
+Qed.
+
+Lemma wasm_history_spec (cur : config) (us : list config) (u : config) (k : key) : wf cur -> Forall wf us -> wf u ->
+  fill_with_curated cur (wasm_seq (clear cur) (us ++ [u])) = fill_with_curated cur u /\
+  (get k (fill_with_curated cur (wasm_seq (clear cur) (us ++ [u])))
+    = match get k u with Some (Some v) => Some (Some v) | _ => get k cur end) /\
+  fill_with_curated cur (wasm_seq (clear cur) []) = cur /\
+  fst (wasm_set_config (wasm_seq (clear cur) us) (wasm_seq (clear cur) us)) = wasm_seq (clear cur) us /\
+  (contains_key k cur = true -> contains_key k (wasm_seq (clear cur) (us ++ [u])) = true).
+Proof.
+  intros Hc HF Hu.
+  assert (Hseq : forall l, wf (wasm_seq (clear cur) l)) by (intros l; apply wf_wasm_seq, wf_clear, Hc).
+  repeat split.
+  - now apply wasm_history.
+  - now apply wasm_history_get.
+  - now apply wasm_fresh.
+  - apply wasm_set_get_id, Hseq.
+  - intros Hk. rewrite wasm_seq_snoc. apply (wasm_set_keeps_keys _ _ _ Hu).
+    clear u Hu. induction us as [|x t IH] using rev_ind.
+    + cbn [wasm_seq fold_left]. unfold contains_key in *. rewrite get_clear. destruct (get k cur); [reflexivity|discriminate].
+    + rewrite wasm_seq_snoc. apply Forall_app in HF as [HF1 HF2]. inversion HF2; subst.
+      apply wasm_set_keeps_keys; [assumption|]. now apply IH.
 Qed.
